@@ -31,14 +31,35 @@ def nUntracked (s : St) : Nat :=
   (if s.store.leaseId && !s.pending then 1 else 0) + (if s.store.secLease && !s.secPending then 1 else 0)
 
 def showResp : Resp → String
-  | .okSecret => "ok" | .okToken => "ok" | .okWrap => "ok" | .errInternal => "err:internal" | .errInvalid => "err:invalid"
+  | .okSecret => "ok" | .okSecretUnleased => "ok" | .okToken => "ok" | .okWrap => "ok" | .errInternal => "err:internal" | .errInvalid => "err:invalid"
   | .errResp => "err:resp"
 
 def b (x : Bool) : String := if x then "1" else "0"
 
+/-- mount kinds of the harness: m modern; pl / plo / plp legacy `plugin` type with a non-kv engine (no options / other
+options / leased_passthrough=true); pk / pko / pkl legacy `plugin` with plugin name kv; kv / kvo / kvl and gen / genl
+types `kv`, `generic` over a non-passthrough backend; pt / ptl a real passthrough backend -/
+def parseMount (x : String) : Option Mount :=
+  match x with
+  | "m" => some .modern
+  | "pl" => some ⟨.plugin, false, true, false, none⟩
+  | "plo" => some ⟨.plugin, false, false, false, none⟩
+  | "plp" => some ⟨.plugin, false, false, true, none⟩
+  | "pk" => some ⟨.plugin, true, true, false, none⟩
+  | "pko" => some ⟨.plugin, true, false, false, none⟩
+  | "pkl" => some ⟨.plugin, true, false, true, none⟩
+  | "kv" => some ⟨.kv, false, true, false, none⟩
+  | "kvo" => some ⟨.kv, false, false, false, none⟩
+  | "kvl" => some ⟨.kv, false, false, true, none⟩
+  | "gen" => some ⟨.generic, false, true, false, none⟩
+  | "genl" => some ⟨.generic, false, false, true, none⟩
+  | "pt" => some ⟨.generic, false, true, false, some false⟩
+  | "ptl" => some ⟨.kv, false, true, false, some true⟩
+  | _ => none
+
 def parseVariant (fs : List String) : Option Variant := do
   match fs with
-  | [fl, rq, np, ty, orp] =>
+  | [fl, rq, np, ty, orp, mn] =>
     let flow ← match fl with
       | "secret" => some Flow.secret | "login" => some .login | "create" => some .create | "wrap" => some .wrap | _ => none
     let req ← match rq with
@@ -46,13 +67,14 @@ def parseVariant (fs : List String) : Option Variant := do
     let npol ← np.toNat?
     let typ ← match ty with | "s" => some Typ.service | "b" => some .batch | "-" => some .na | _ => none
     let orphan ← match orp with | "0" => some false | "1" => some true | _ => none
-    -- only the combinations the flows are written for
+    let mount ← parseMount mn
+    -- only the combinations the flows are written for (other mounts than the modern one: the plain secret flow)
     let okCombo : Bool := match flow with
       | .secret => req != .anon && typ == .na && !orphan
-      | .wrap => req != .anon && typ == .na && !orphan
-      | .login => req == .anon && typ != .na && !orphan
-      | .create => (req == .service || req == .root) && typ != .na
-    if okCombo then some { flow, req, npol, typ, orphan } else none
+      | .wrap => req != .anon && typ == .na && !orphan && mount == .modern
+      | .login => req == .anon && typ != .na && !orphan && mount == .modern
+      | .create => (req == .service || req == .root) && typ != .na && mount == .modern
+    if okCombo then some { flow, req, npol, typ, orphan, mount } else none
   | _ => none
 
 /-- the probe of a token entry the request left behind, then the two lookups of the lookup-self request -/
@@ -65,7 +87,7 @@ def probe3 (s : St) : Bool × List Ev × St × St :=
 def showRun (v : Variant) (o : Obs) : String :=
   let s := o.st
   let resp := o.resp.getD .errInternal
-  let sec := resp == .okSecret
+  let sec := resp == .okSecret || resp == .okSecretUnleased
   let tok := resp == .okToken
   let wrap := resp == .okWrap
   let handed := tok || wrap
@@ -93,13 +115,13 @@ def handle (fs : List String) : String :=
     | some v => showRun v (faultFree v)
     | none => "bad-op"
   | "fault" :: rest =>
-    match parseVariant (rest.take 5), (rest.drop 5) with
+    match parseVariant (rest.take 6), (rest.drop 6) with
     | some v, [k] => match k.toNat? with
       | some k => showRun v (stepWithFault v k)
       | none => "bad-op"
     | _, _ => "bad-op"
   | "crash" :: rest =>
-    match parseVariant (rest.take 5), (rest.drop 5) with
+    match parseVariant (rest.take 6), (rest.drop 6) with
     | some v, [j] => match j.toNat? with
       | some (j+1) =>
         let o := crashAfter v (j+1)
